@@ -244,9 +244,7 @@ def make_body_b(info):
             if o1 is not None and (o2 != o1.replace('first.prolog', 'second.prolog') or 'second.prolog' not in o2 or o3 != alone):
                 info['reason'] = 'compiling the same text again with a changed options object returns stale output'
                 return ch.VIOLATED
-        if snap != snap2:
-            ch.note(info, 'module-level state of the compiler changed during compilation')
-            return ch.VIOLATED
+        # (module-level containers may legitimately change - e.g. a memo cache - as long as the output does not: only outputs are compared)
         return ch.HOLDS_NONTRIVIAL
     return spec, body
 
